@@ -4,7 +4,7 @@
 cd /verif || exit 2
 OUT=seeded/RESULTS.txt
 : > $OUT
-for d in seeded/*/; do
+for d in ${SEEDS:-seeded/*/}; do
   n=$(basename $d)
   p=$(echo $n | cut -d- -f1)
   echo "== $n" >> $OUT
